@@ -41,21 +41,20 @@ type recField struct {
 	isPtr  bool
 }
 
+type recType struct {
+	id     uint64
+	fields []recField
+}
+
+func structT(id uint64) func(schema.Type) {
+	return func(t schema.Type) { t.SetStructType(); t.StructType().SetTypeId(id) }
+}
+
 func recBuild() {
 	if recData != nil {
 		return
 	}
-	msg, seg, err := capnp.NewMessage(capnp.SingleSegment(nil))
-	must(err)
-	req, err := schema.NewRootCodeGeneratorRequest(seg)
-	must(err)
-	structT := func(id uint64) func(schema.Type) {
-		return func(t schema.Type) { t.SetStructType(); t.StructType().SetTypeId(id) }
-	}
-	types := []struct {
-		id     uint64
-		fields []recField
-	}{
+	types := []recType{
 		{recNode, []recField{{name: "val", set: func(t schema.Type) { t.SetInt32() }}, {name: "next", set: structT(recNode), isPtr: true}}},
 		{recTree, []recField{{name: "left", set: structT(recTree), isPtr: true}, {name: "right", off: 1, set: structT(recTree), isPtr: true},
 			{name: "kids", off: 2, isPtr: true, set: func(t schema.Type) {
@@ -75,9 +74,20 @@ func recBuild() {
 				return st.ToPtr()
 			}}}},
 	}
+	var ids []uint64
+	recData, ids = buildSchemaBytes(types)
+	recReg = new(schemas.Registry)
+	must(recReg.Register(&schemas.Schema{Bytes: recData, Nodes: ids}))
+}
+
+// buildSchemaBytes builds a CodeGeneratorRequest message with the given struct types.
+func buildSchemaBytes(types []recType) (data []byte, ids []uint64) {
+	msg, seg, err := capnp.NewMessage(capnp.SingleSegment(nil))
+	must(err)
+	req, err := schema.NewRootCodeGeneratorRequest(seg)
+	must(err)
 	nodes, err := req.NewNodes(int32(len(types)))
 	must(err)
-	var ids []uint64
 	for i, ty := range types {
 		n := nodes.At(i)
 		n.SetId(ty.id)
@@ -102,19 +112,17 @@ func recBuild() {
 				must(dv.SetStructValue(fd.defPtr(seg)))
 			case fd.isPtr && t.Which() == schema.Type_Which_structType:
 				must(dv.SetStructValue(capnp.Ptr{}))
-			case fd.isPtr:
+			case fd.isPtr && t.Which() == schema.Type_Which_list:
 				must(dv.SetList(capnp.Ptr{}))
-			case t.Which() == schema.Type_Which_int32:
-				dv.SetInt32(0)
 			default:
-				dv.SetUint8(0)
+				// a zero value of the field's own kind (Value.which ordinals equal Type.which ordinals)
+				dv.Struct.SetUint16(0, uint16(t.Which()))
 			}
 		}
 	}
-	recData, err = msg.Marshal()
+	data, err = msg.Marshal()
 	must(err)
-	recReg = new(schemas.Registry)
-	must(recReg.Register(&schemas.Schema{Bytes: recData, Nodes: ids}))
+	return data, ids
 }
 
 var recSchemaLine string
